@@ -776,6 +776,9 @@ func c16H5(r *Run) {
 			}
 			seen[f] = true
 			allInstrs(f, func(in ssa.Instruction) {
+				if d, ok := in.(*ssa.Defer); ok && callID(&d.Call).is("sync", "WaitGroup", "Wait") {
+					waits = true
+				}
 				if call, ok := in.(*ssa.Call); ok {
 					if callID(&call.Call).is("sync", "WaitGroup", "Wait") {
 						waits = true
